@@ -1,6 +1,7 @@
 package main
 
 import (
+	"encoding/json"
 	"fmt"
 	"go/constant"
 	"go/types"
@@ -215,9 +216,19 @@ func init() {
 		return s
 	}
 	nop := func(in *Interp, _ *frame, a []Value) Value { return nil }
-	for _, n := range []string{"log.Println", "log.Printf", "log.Print", "(*log.Logger).Print", "(*log.Logger).Printf", "(*log.Logger).Println",
-		"runtime.Gosched", "runtime.GC", "os.Exit"} {
+	for _, n := range []string{"log.Println", "log.Printf", "log.Print", "runtime.Gosched", "runtime.GC", "os.Exit"} {
 		intrinsics[n] = nop
+	}
+	// methods of *log.Logger write nothing, but dereference their receiver like the real ones
+	logm := func(in *Interp, _ *frame, a []Value) Value {
+		if p, ok := a[0].(*Value); ok && p == nil {
+			in.rtPanic("invalid memory address or nil pointer dereference")
+		}
+		return nil
+	}
+	for _, n := range []string{"(*log.Logger).Print", "(*log.Logger).Printf", "(*log.Logger).Println", "(*log.Logger).Output",
+		"(*log.Logger).Fatal", "(*log.Logger).Fatalf", "(*log.Logger).SetOutput", "(*log.Logger).SetFlags", "(*log.Logger).SetPrefix"} {
+		intrinsics[n] = logm
 	}
 	intrinsics["math.Float64frombits"] = func(in *Interp, _ *frame, a []Value) Value {
 		switch x := a[0].(type) {
@@ -276,7 +287,11 @@ func init() {
 		}
 		return math.Pow(x, y)
 	}
-	intrinsics["log.New"] = func(in *Interp, _ *frame, a []Value) Value { return (*Value)(nil) }
+	intrinsics["log.New"] = func(in *Interp, _ *frame, a []Value) Value {
+		c := new(Value) // a non-nil dummy logger
+		*c = Struct{}
+		return c
+	}
 	intrinsics["sync/atomic.CompareAndSwapInt32"] = func(in *Interp, _ *frame, a []Value) Value {
 		p := a[0].(*Value)
 		if (*p).(int64) == a[1].(int64) {
@@ -415,6 +430,25 @@ func init() {
 		}
 		in.unsupported(fmt.Sprintf("reflect.Value.Pointer of %T", v))
 		return nil
+	}
+	// encoding/json.Marshal: reflection-driven; executed natively on a plain-Go copy of a concrete
+	// Soy value (same JSON text: the data types marshal like their underlying kinds, Null and
+	// Undefined as null); symbolic payloads are outside the engine.
+	intrinsics["encoding/json.Marshal"] = func(in *Interp, fr *frame, a []Value) Value {
+		h, ok := in.soyToHost(a[0])
+		if !ok {
+			in.unsupported("encoding/json.Marshal of a symbolic or engine-foreign value")
+		}
+		b, err := json.Marshal(h)
+		if err != nil {
+			e := in.call(fr, in.lookupFunc("errors", "New"), []Value{err.Error()})
+			return Tuple{[]Value(nil), e}
+		}
+		out := make([]Value, len(b))
+		for i, c := range b {
+			out[i] = uint64(c)
+		}
+		return Tuple{out, Iface{}}
 	}
 	intrinsics["reflect.TypeOf"] = func(in *Interp, _ *frame, a []Value) Value { return Iface{} }
 	intrinsics["runtime/debug.Stack"] = func(in *Interp, _ *frame, a []Value) Value { return []Value(nil) }
@@ -833,4 +867,66 @@ func (in *Interp) callForFmt(fr *frame, f *ssa.Function, recv Value) (res Value)
 		}
 	}()
 	return in.call(fr, f, []Value{recv})
+}
+
+
+// soyToHost converts a concrete engine value of one of the soy data types (or a basic Go value)
+// into plain host Go data.
+func (in *Interp) soyToHost(v Value) (interface{}, bool) {
+	switch x := v.(type) {
+	case Iface:
+		if x.T == nil {
+			return nil, true
+		}
+		switch typeName(x.T) {
+		case "data.Null", "data.Undefined":
+			return nil, true
+		}
+		return in.soyToHost(x.V)
+	case string:
+		return x, true
+	case bool:
+		return x, true
+	case int64:
+		return x, true
+	case uint64:
+		return x, true
+	case float64:
+		return x, true
+	case []Value:
+		out := make([]interface{}, len(x))
+		for i, e := range x {
+			h, ok := in.soyToHost(e)
+			if !ok {
+				return nil, false
+			}
+			out[i] = h
+		}
+		return out, true
+	case *MapV:
+		out := map[string]interface{}{}
+		if x == nil {
+			return nil, true
+		}
+		for i, k := range x.Keys {
+			if x.Dead[i] {
+				continue
+			}
+			ks, ok := k.(string)
+			if !ok {
+				return nil, false
+			}
+			h, ok := in.soyToHost(x.Vals[i])
+			if !ok {
+				return nil, false
+			}
+			out[ks] = h
+		}
+		return out, true
+	case Struct:
+		if len(x) == 0 {
+			return nil, true // data.Null{} / data.Undefined{}
+		}
+	}
+	return nil, false
 }
